@@ -98,9 +98,40 @@ def gen_backlog(rng):
     return {"ops": ops}
 
 
+def gen_emit_on(rng):
+    """a combine_latest with an explicit emit_on (given as a stream or by position), data on every input, an edit of
+    its OTHER inputs (connect a new one / disconnect one), then data on every remaining input"""
+    k = rng.choice([2, 3])
+    ops = [["new", "pipe", []] for _ in range(k)]
+    z = k
+    ops.append(["new", rng.choice(["combine_on", "combine_on0"]), list(range(k))])
+    ops.append(["new", "sink", [z]])
+    v = 0
+    for i in rng.sample(range(k), k):
+        v += 1
+        ops.append(["emit", i, v])
+    inputs = list(range(k))
+    for _ in range(rng.choice([1, 1, 2])):
+        if rng.random() < 0.5 or len(inputs) <= 2:
+            ops.append(["new", "pipe", []])
+            new = sum(1 for o in ops if o[0] == "new") - 1
+            ops.append(["connect", new, z])
+            inputs.append(new)
+        else:
+            victim = rng.choice(inputs[1:])
+            ops.append(["disconnect", victim, z])
+            inputs.remove(victim)
+        for i in rng.sample(inputs, len(inputs)):
+            v += 1
+            ops.append(["emit", i, v])
+    return {"ops": ops}
+
+
 def gen(rng, tier):
     if rng.random() < 0.2:
         return gen_backlog(rng)
+    if rng.random() < 0.1:
+        return gen_emit_on(rng)
     ops = []
     kinds = []       # per index
     held = set()
@@ -139,12 +170,12 @@ def gen(rng, tier):
         if u < 0.25 or len(kinds) < 3:
             if not non_sinks:
                 continue
-            kind = rng.choice(["pipe", "pipe", "sink", "sink", "zip", "combine", "combine_on"])
+            kind = rng.choice(["pipe", "pipe", "sink", "sink", "zip", "combine", "combine_on", "combine_on0"])
             if kind == "sink":
                 new(kind, [rng.choice(non_sinks)])
             else:
                 k = rng.choice([0, 1, 1, 2]) if kind == "pipe" else rng.choice([1, 2, 2, 3])
-                if kind == "combine_on" and len(non_sinks) < 1:
+                if kind in ("combine_on", "combine_on0") and len(non_sinks) < 1:
                     continue
                 u_new = rng.sample(non_sinks, min(k, len(non_sinks)))
                 if max_paths(("new", u_new)) <= 32:
@@ -223,6 +254,35 @@ def oracle(case, obs):
                 out.append(("C15", "C15/delivery-misses-edge", "step %d: %d emitted to %r, its downstreams were %r" % (step, n, got, exp)))
         if out:
             return out
+    # (2b) combine_latest with an explicit emit_on keeps emitting ONLY when that input delivers, also after its other
+    #      inputs were connected / disconnected (it behaves like a node built over its current inputs with the same emit_on)
+    trig = {}      # combine_on node -> its trigger upstream (None once that edge is gone)
+    nn = 0
+    for step, (op, o) in enumerate(zip(case["ops"], obs)):
+        if op[0] == "new":
+            if op[1] in ("combine_on", "combine_on0") and op[2]:
+                trig[nn] = op[2][0]
+            nn += 1
+        if o["raised"]:
+            continue
+        if op[0] == "disconnect" and op[2] in trig and trig[op[2]] == op[1]:
+            trig[op[2]] = None
+        if op[0] == "destroy":
+            if op[1] in trig:
+                trig[op[1]] = None
+            for z in trig:
+                if trig[z] == op[1]:
+                    trig[z] = None          # (a destroyed node is detached from its upstreams, not its downstreams: keep simple)
+        if op[0] == "drop":
+            pass
+        for z, t in trig.items():
+            if t is None or (op[0] == "emit" and op[1] == z):      # (an emit AT the node itself goes straight to its downstreams)
+                continue
+            emitted = [x for (s_, d, x) in o["deliv"] if s_ == z]
+            if emitted and not any(s_ == t and d == z for (s_, d, x) in o["deliv"]):
+                out.append(("C15", "C15/combine/emit-on-ignored", "step %d (%s): combine_latest node %d (emit_on = its input %d) emitted %r although that input delivered nothing in this step"
+                            % (step, op, z, t, emitted[:3])))
+                return out
     # (3) zip behaves like a zip built over its CURRENT inputs fed what they delivered since they were connected:
     #     no complete tuple may stay unpaired after any operation
     fifo = {}      # zip node -> {upstream: [values waiting]}
@@ -301,7 +361,7 @@ def run(prop, tier, seed, replay=None):
             break
     # (combine_latest with an explicit emit_on is not in the Coq topology model: oracle only)
     cos_all = cos
-    cos = [(c, o) for (c, o) in cos_all if not any(op[0] == "new" and op[1] == "combine_on" for op in c["ops"])]
+    cos = [(c, o) for (c, o) in cos_all if not any(op[0] == "new" and op[1] in ("combine_on", "combine_on0") for op in c["ops"])]
     mism, errors = correspondence("C15", cos)
     for p, o in errors:
         out.violation("C15/correspondence-error", "coqc failed: %s" % o[-300:], {"file": p}, no_input=True)
